@@ -14,6 +14,10 @@ var known = ev.Matcher[Case]{
 	// TiDB's planner plans every change on its own and orders them by fixed priorities (ModifyForeignKey before
 	// AddTable and DropTable): a foreign key that keeps its name while it moves to a table created by the same plan is
 	// re-pointed before that table exists; moved to the end instead, its old parent would be dropped under it
+	// DROP DATABASE / DROP SCHEMA ... CASCADE is planned before the table changes of the other schemas
+	"drop-schema-before-foreign-keys-into-it": func(c Case, err error) bool {
+		return c.Split && c.DropSchema && strings.Contains(err.Error(), "schema crm dropped while foreign key")
+	},
 	"tidb-repointed-foreign-key-misordered": func(c Case, err error) bool {
 		return c.Dialect == "mysql" && c.Flavour == "tidb" && c.Names == 1 && repointed(c) && strings.Contains(err.Error(), "violates the database's dependency rules")
 	},
@@ -129,7 +133,7 @@ func mkCheck(col *ev.Collector) func(Case) error {
 			col.Class("mysql-family/" + c.Flavour + "/" + sh)
 		}
 		if n > 0 {
-			col.NonTrivial(fmt.Sprintf("%d|%v|%v|%v|%s|%d|%d|%v", c.N, c.Role, c.FromE, c.ToE, c.Dialect, c.Mode, c.Names, c.Split) + c.Flavour)
+			col.NonTrivial(fmt.Sprintf("%d|%v|%v|%v|%s|%d|%d|%v", c.N, c.Role, c.FromE, c.ToE, c.Dialect, c.Mode, c.Names, c.Split) + c.Flavour + fmt.Sprint(c.DropSchema))
 		}
 		col.Sample(c.Dialect+"/"+sh, c)
 		return err
@@ -169,6 +173,20 @@ func TestCheck(t *testing.T) {
 							c.Split = true
 							if !ev.Each(col, "exhaustive-two-schemas", c, check, known) {
 								return
+							}
+							// ... and the second schema dropped as a whole, when all its tables are dropped ones
+							all := true
+							for i, r := range roles {
+								if i%2 == 1 && r != dropped {
+									all = false
+								}
+							}
+							if all && n >= 2 {
+								c.DropSchema = true
+								if !ev.Each(col, "exhaustive-two-schemas-drop-schema", c, check, known) {
+									return
+								}
+								c.DropSchema = false
 							}
 							c.Split = false
 						}
